@@ -574,7 +574,58 @@ def r5_drain_before_allocator(ctx, rule='C15.R5'):
         ctx.check(sum(1 for t in tys if 'LocalBox' in t) == 2, 'sentinels-owned', 'head and tail sentinels are owned boxes of the list', None, tys)
 
 
+def r6_page_extent(ctx):
+    """the allocator only hands out memory it owns: the extent registered as free for a fresh page is the extent that was requested from
+    the system allocator for it, and the page is given back with the layout it was requested with"""
+    ctx.set_rule('C15.R6')
+    P = ctx.P
+    INNER = A + 'CQueueLLAllocatorInner'
+    def layout_of(f, s_):
+        # (size, align) of the Layout argument of an alloc/dealloc call, if it is written as from_size_align(size, align)
+        for a in s_.args:
+            t = peel(f.expr_operand(a, s_.b, 'T'))
+            while t[0] == 'call' and str(t[1]).split('::')[-1] in ('expect', 'unwrap', 'unwrap_unchecked') and t[2]:
+                t = peel(t[2][0])
+            if t[0] == 'call' and str(t[1]).endswith('Layout::from_size_align') and len(t[2]) == 2:
+                return canon(peel(t[2][0])), canon(peel(t[2][1]))
+            if t[0] == 'call' and str(t[1]).endswith('Layout::from_size_align_unchecked') and len(t[2]) == 2:
+                return canon(peel(t[2][0])), canon(peel(t[2][1]))
+        return None
+    got = None
+    n = 0
+    for f in P.scope_of(INNER + '::add_page'):
+        allocs = [c for c in f.calls() if c.name in ('std::alloc::alloc_zeroed', 'std::alloc::alloc')]
+        regs = [c for c in f.calls() if c.name == INNER + '::add_free_region']
+        for c in allocs:
+            lay = layout_of(f, c)
+            if lay is None:
+                ctx.note('page request in %s with a layout this rule cannot read' % f.key)
+                continue
+            got = lay
+            for r in regs:
+                start = f.expr_operand(r.args[1], r.b, 'T')
+                if not any(x[0] == 'call' and x[1] == c.name for x in walk(start)):
+                    continue
+                n += 1
+                size = canon(peel(f.expr_operand(r.args[2], r.b, 'T')))
+                ctx.check(size == lay[0], 'free-extent-is-requested-extent', 'a fresh page is registered as free with exactly the size requested for it', r.where(),
+                          {'requested': show_c(lay[0])[:80], 'registered': show_c(size)[:80]})
+    ctx.floor('page registrations', n, 1)
+    dr = [h for k, h in P.fns.items() if k.endswith('::drop') and 'CQueueLLAllocatorInner' in k and h.trait and 'Drop' in h.trait]
+    if ctx.floor('Drop of the allocator', len(dr), 1) and got is not None:
+        h = dr[0]
+        for c in h.calls():
+            if c.name == 'std::alloc::dealloc':
+                lay = layout_of(h, c)
+                if lay is None:
+                    ctx.note('page release with a layout this rule cannot read')
+                    continue
+                ctx.check(lay == got, 'page-released-as-requested', 'a page is given back with the layout it was requested with', c.where(),
+                          {'requested': [show_c(x)[:60] for x in got], 'released': [show_c(x)[:60] for x in lay]})
+
+
 def run(ctx):
+    r6_page_extent(ctx)
     r1_aligned_pointer(ctx)
     r2_fit(ctx)
     r3_size_agreement(ctx)
